@@ -442,6 +442,75 @@ def describe(c):
                                                    ", ".join("%s:%s" % (n.decode(), t[0]) for n, t in c.srcs.items()))
 
 
+def fault_part(ctx, real, quick):
+    """faults on the writing side, judged by S only (the model's file system has no quotas and one connection):
+    (a) rpdcp whose local copies are blocked for TWO hosts at once; (b) pdcp where a file exceeds the receivers' file
+    size limit in the middle of the copy, with more files following.  Returns (runs, problems)."""
+    problems, nruns = [], 0
+    base = os.path.join(ctx.scratch, "c11f")
+    os.makedirs(base, exist_ok=True)
+    # (a)
+    for rep in range(2 if quick else 8):
+        root = os.path.join(base, "a%d" % rep)
+        tree = ("D", 0o755, 900000000, {b"out": ("D", 0o755, 900000000, {b"f." + HOSTS[0]: ("D", 0o755, 900000000, {}), b"f." + HOSTS[1]: ("D", 0o755, 900000000, {})})})
+        for h in HOSTS:
+            tree = put(tree, [h], ("D", 0o755, 900000000, {b"f": ("F", 0o644, 1000000000, b"contents of f on " + h),
+                                                              b"g": ("F", 0o600, 1000000001, b"g" * (3 + rep) + h)}))
+        pcpeng.materialize(tree, root)
+        rc, o, e = real.run(["-Rpcptest", "-w", ",".join(h.decode() for h in HOSTS), b"f", b"g", b"out"], prog="rpdcp", cwd=root, timeout=60)
+        nruns += 1
+        after = pcpeng.snapshot(root)
+        case = {"kind": "rpdcp, local copies of f from the first two hosts blocked by directories", "hosts": [h.decode() for h in HOSTS]}
+        cr = pcpeng.crashed(rc, e)
+        if cr:
+            problems.append((case, "reports for h1 and h2, other copies made", cr, "rpdcp crashed or did not end when two hosts' copies are blocked: " + cr)); continue
+        outd = lookup(after, [b"out"])
+        for h in HOSTS:
+            g = outd[3].get(b"g." + h)
+            if g is None or g[0] != "F" or g[3] != b"g" * (3 + rep) + h:
+                problems.append((case, "out/g.%s faithful" % h.decode(), str(g)[:100], "a blocked copy for other files/hosts corrupted or prevented out/g.%s" % h.decode())); break
+        f3 = outd[3].get(b"f." + HOSTS[-1])
+        if not problems and (f3 is None or f3[0] != "F" or f3[3] != b"contents of f on " + HOSTS[-1]):
+            problems.append((case, "out/f.%s faithful" % HOSTS[-1].decode(), str(f3)[:100], "the copy from the unblocked host is missing or wrong"))
+        for h in HOSTS[:2]:
+            if h + b":" not in e and h + b" " not in e:
+                problems.append((case, "a report under %s" % h.decode(), e.decode("latin-1")[-300:],
+                                 "the blocked copy of f from %s is not reported for that host" % h.decode())); break
+        shutil.rmtree(root, ignore_errors=True)
+    # (b)
+    for rep in range(2 if quick else 8):
+        root = os.path.join(base, "b%d" % rep)
+        tree = ("D", 0o755, 900000000, {b"big": ("F", 0o644, 1000000000, bytes((i * 7 + rep) % 251 for i in range(40000 + 8192 * rep))),
+                                        b"s1": ("F", 0o644, 1000000001, b"small one\n"), b"s2": ("F", 0o600, 1000000002, b"small two\n" * 3),
+                                        b"s3": ("F", 0o640, 1000000003, b"")})
+        for h in HOSTS:
+            tree = put(tree, [h], ("D", 0o755, 900000000, {}))
+        pcpeng.materialize(tree, root)
+        rc, o, e = real.run(["-Rpcptest", "-w", ",".join(h.decode() for h in HOSTS), b"big", b"s1", b"s2", b"s3", b"."], prog="pdcp", cwd=root, timeout=60,
+                            fsize=12 * 1024)
+        nruns += 1
+        after = pcpeng.snapshot(root)
+        case = {"kind": "pdcp big s1 s2 s3 under a 12 KiB file size limit on the receivers", "hosts": [h.decode() for h in HOSTS]}
+        cr = pcpeng.crashed(rc, e)
+        if cr:
+            problems.append((case, "big reported, s1 s2 s3 copied", cr, "pdcp crashed or did not end when a file hits the file size limit: " + cr)); continue
+        for h in HOSTS:
+            hd = lookup(after, [h])
+            for nm in (b"s1", b"s2", b"s3"):
+                src = tree[3][nm]
+                cp = hd[3].get(nm)
+                if cp is None or cp[0] != "F" or cp[3] != src[3]:
+                    problems.append((case, "%s/%s faithful" % (h.decode(), nm.decode()), str(cp)[:100],
+                                     "a file that could not be written (big, over the size limit) corrupted or prevented the copy of %s on %s" % (nm.decode(), h.decode())))
+                    break
+            if problems:
+                break
+            if h not in e:
+                problems.append((case, "big reported for %s" % h.decode(), e.decode("latin-1")[-300:], "the file that could not be written is not reported for host %s" % h.decode())); break
+        shutil.rmtree(root, ignore_errors=True)
+    return nruns, problems
+
+
 def run(ctx):
     ctx.gen_params()
     ctx.prove()
@@ -486,9 +555,14 @@ def run(ctx):
                               correspondence="pcp: tree left by pdcp/rpdcp on each target = tree left by the extracted client+receiver models", detail=describe(c))
         if len(samples) < 4 and nfiles >= 4:
             samples.append({"command": describe(c)[:200], "entries": nfiles, "exit": c.rc, "stderr": c.err.decode("latin-1")[:120]})
+    nfault, fprob = fault_part(ctx, real, quick)
+    for case, exp, obs, text in fprob[:3]:
+        bad_s += 1
+        ctx.violation("input", case=case, expected=exp, observed=obs, engine="pcp", detail=text)
     have_input = any(v["kind"] != "no-failing-input-found" for v in ctx.violations)
     vlib.report_proof_break(ctx, have_input)
     cov = vlib.proof_coverage(ctx, {
+        "write_fault_runs": nfault,
         "evaluations": len(cases) * len(HOSTS), "distinct_nontrivial": nontrivial,
         "rule": "generated trees (depth <= 4, fan-out <= 4, sizes 0, 1, 8191, 8192, 8193, 3*8192+5 and random, names with blanks, shell metacharacters, "
                 "control and non-ASCII bytes, 255-byte names, record look-alikes, all 12 mode bits on files and directories, distinct mtimes) copied by the "
